@@ -39,9 +39,9 @@ CHECKS.update({
  "C13": c("exploration", "runtime reference-model monitor: every Read compared structurally with an in-memory model after each vault operation",
           "PRNG histories of Create/Update*/Delete on sqlite (in-memory and file-backed, incl. reopen) and cosmosdb-over-fake with hostile field values and four typed request/response flavours; after every step Read must equal the model (definition, order, status, ns timestamps, reason, attempts with typed responses and error chains); Read of unknown/deleted ids must fail.",
           STORE_NOTE + " The cosmos fake ignores ORDER BY: actions are compared as a set there.", "DESIGN.md §C13"),
- "C14": c("fault_enumeration", "fault injection + raw-store inspection: unencodable request at every action position, SIGKILL inside Create (file-backed sqlite; at an action position, at a PRNG time, or injected by strace at the N-th pwrite64/fsync of a thread) checked by a second process, duplicate creates, create/delete histories",
+ "C14": c("fault_enumeration", "fault injection + raw-store inspection: unencodable request at every action position, SIGKILL inside Create (file-backed sqlite; at an action position, at a PRNG time, or injected by strace at the N-th pwrite64/fsync of a thread) checked by a second process, on cosmosdb death between the client writes of Create (write gate, second vault over the same storage), duplicate creates, create/delete histories",
           "For every action position of every explored plan a request whose MarshalJSON fails (or kills the process) is planted; afterwards either the complete plan is readable or no trace exists (Read, Exists, raw row/item counts), other plans and their raw rows are unchanged; duplicate Create fails without altering the first; Delete removes exactly the plan's rows.",
-          STORE_NOTE + " Crash = process death (SIGKILL), not power loss; process death is sqlite-only.", "DESIGN.md §C14"),
+          STORE_NOTE + " Crash = process death (SIGKILL), not power loss; process death inside one write is sqlite-only; on cosmosdb the death between the client writes of a Create is explored with the hook write gate.", "DESIGN.md §C14"),
  "C15": c("exploration", "runtime reference-filter monitor over Exists/Search/List result streams with stream-closure watchdog, cancelled and refused callers, stamped histories of queries racing with writers under an interval oracle and the race detector; Cosmos SQL text evaluated by an interpreter of the emitted fragment",
           "After each mutation of a PRNG store, Exists for live/deleted/unknown ids, List with limits around n, Search{Running} and PRNG multi-valued filters are compared (ordered) with a reference filter over the model; every stream is drained behind a watchdog.",
           STORE_NOTE + " For cosmosdb the status/group/order semantics are decided on the emitted query text under our reading of Cosmos SQL.", "DESIGN.md §C15"),
